@@ -1605,6 +1605,12 @@ impl Tree {
 		// anything cached so far may describe a file that no longer exists.
 		self.core.inner.opts.block_cache.clear();
 
+		// The value log directory was replaced as well: the open writer and the
+		// cached handles still point at the discarded files.
+		if let Some(ref vlog) = self.core.inner.vlog {
+			vlog.reload_after_restore()?;
+		}
+
 		// Step 2: Reload in-memory state to match restored files
 
 		// Create a new LevelManifest from the current path
